@@ -727,17 +727,28 @@ func (ex *Exec) sha256(in []value) array {
 				inEq = c.And(inEq, c.Eq(ex.term(prev.in[k]), ex.term(app.in[k])))
 			}
 		}
-		outEq := c.True
-		for k := range app.out {
-			outEq = c.And(outEq, c.Eq(prev.out[k], app.out[k]))
-		}
 		if n := ex.digestPrefix; n > 0 && n < len(app.out) {
-			// stronger model: no two different inputs share the first n digest bytes
+			// stronger model: no two different inputs share the first n digest
+			// bytes. inEq <=> preEq, and equal inputs give equal remaining bytes;
+			// together these imply inEq <=> outEq without spelling out 32 bytes
+			// for the (many) pairs whose inputs differ syntactically.
 			preEq := c.True
 			for k := 0; k < n; k++ {
 				preEq = c.And(preEq, c.Eq(prev.out[k], app.out[k]))
 			}
 			ex.assume(c.Eq(inEq, preEq))
+			if !inEq.IsFalse() {
+				restEq := c.True
+				for k := n; k < len(app.out); k++ {
+					restEq = c.And(restEq, c.Eq(prev.out[k], app.out[k]))
+				}
+				ex.assume(c.Implies(inEq, restEq))
+			}
+			continue
+		}
+		outEq := c.True
+		for k := range app.out {
+			outEq = c.And(outEq, c.Eq(prev.out[k], app.out[k]))
 		}
 		ex.assume(c.Eq(inEq, outEq))
 	}
